@@ -9,7 +9,9 @@ package props
 
 import (
 	"encoding/json"
+	"math/big"
 	"reflect"
+	"strconv"
 	"testing"
 
 	"github.com/google/jsonschema-go/jsonschema"
@@ -53,14 +55,37 @@ func selfCheckRepr(x any, v *jv.V) string {
 	return ""
 }
 
+// c11Opts: the equality properties are about mathematical values, so a float32 may carry any
+// number it holds exactly, whatever encoding/json would print for it.
+var c11Opts = repr.Options{LooseFloat32: true}
+
+func hasLooseFloat32(v *jv.V) bool {
+	found := false
+	v.Walk(func(n *jv.V) {
+		if n.K != jv.Num {
+			return
+		}
+		// float32-exact, but the float32's shortest spelling denotes another number
+		if f, exact := n.N.Float32(); exact {
+			if back, ok := new(big.Rat).SetString(strconv.FormatFloat(float64(f), 'g', -1, 32)); ok && back.Cmp(n.N) != 0 {
+				found = true
+			}
+		}
+	})
+	return found
+}
+
 func checkC11(c *c11Case) (fl *failure, harnessErr string) {
-	ra := (&repr.Builder{C: &repr.Script{Seq: c.ChA}}).Build(c.A)
-	rb := (&repr.Builder{C: &repr.Script{Seq: c.ChB}}).Build(c.B)
-	rc := (&repr.Builder{C: &repr.Script{Seq: c.ChC}}).Build(c.C)
+	ra := (&repr.Builder{C: &repr.Script{Seq: c.ChA}, O: c11Opts}).Build(c.A)
+	rb := (&repr.Builder{C: &repr.Script{Seq: c.ChB}, O: c11Opts}).Build(c.B)
+	rc := (&repr.Builder{C: &repr.Script{Seq: c.ChC}, O: c11Opts}).Build(c.C)
 	for _, p := range []struct {
 		x any
 		v *jv.V
 	}{{ra, c.A}, {rb, c.B}, {rc, c.C}} {
+		if hasLooseFloat32(p.v) {
+			continue // a float32 carrying it is spelled with fewer digits by encoding/json (by design here)
+		}
 		if msg := selfCheckRepr(p.x, p.v); msg != "" {
 			return nil, msg
 		}
@@ -192,7 +217,7 @@ func TestC11(t *testing.T) {
 		var used map[string]int
 		mk := func(v *jv.V) []int {
 			l := &repr.Logger{In: repr.RapidChooser{T: t}}
-			bd := &repr.Builder{C: l}
+			bd := &repr.Builder{C: l, O: c11Opts}
 			bd.Build(v)
 			if used == nil {
 				used = map[string]int{}
@@ -216,8 +241,8 @@ func TestC11(t *testing.T) {
 		for k := range used {
 			rec.Class("repr:" + k)
 		}
-		ra := (&repr.Builder{C: &repr.Script{Seq: c.ChA}}).Build(c.A)
-		rb := (&repr.Builder{C: &repr.Script{Seq: c.ChB}}).Build(c.B)
+		ra := (&repr.Builder{C: &repr.Script{Seq: c.ChA}, O: c11Opts}).Build(c.A)
+		rb := (&repr.Builder{C: &repr.Script{Seq: c.ChB}, O: c11Opts}).Build(c.B)
 		rec.Class("toplevel-pair:" + kindClass(ra) + "x" + kindClass(rb))
 		rec.Eval(nt, ev.JSON(c), func() any { return c })
 		if fl != nil {
